@@ -480,6 +480,9 @@ func execC34(c *hlib.Ctx, tok []string) string {
 		// afterwards is this property's concern as well
 		return execC29(c, tok)
 	}
+	if len(tok) > 0 && tok[0] == "o.sg.run" {
+		return execSG(c, tok) // a real store.BucketStore gateway next to the real compactor, see c34sg.go
+	}
 	if len(tok) != 6 || tok[0] != "cp.run" {
 		return "bad-op"
 	}
@@ -607,9 +610,28 @@ func realCompactorUnderFaults(c *hlib.Ctx) {
 	}
 }
 
+// realGateway: a real store.BucketStore syncing (and being asked mid-sync) while the real compactor works.
+func realGateway(c *hlib.Ctx) {
+	sets := []string{
+		"0:1000:5:0;1000:2000:3:0;2000:3000:6:0;3000:4000:1:0",
+		"0:1000:7:0;1000:2000:7:0;2000:3000:1:0;3000:4000:2:0;4000:5000:4:0;5000:6000:3:0;6000:7000:1:0",
+	}
+	n := 1
+	if c.Tier != "quick" {
+		n = len(sets)
+	}
+	for _, bs := range sets[:n] {
+		for _, mode := range []string{"plain", "failonce"} {
+			c.Do(fmt.Sprintf("o.sg.run %d %s %s", 125+10*c.R.Intn(20), bs, mode), true)
+			c.Count("real-gateway-run:" + mode)
+		}
+	}
+}
+
 func genC34(c *hlib.Ctx) {
 	r := c.R
 	realCompactorUnderFaults(c)
+	realGateway(c)
 	n := c.N(700, 6000)
 	if c.Tier == "search" {
 		n = 1500 // the search after a broken proof/tie: a bounded extra budget
